@@ -441,7 +441,12 @@ def apply_icodes(out, rng, prob=0.3):
     for k, (atoms, t) in enumerate(zip(blocks, truth)):
         if prev is not None and t["kind"] == "aa" and prev[0]["kind"] == "aa" and prev[0]["chain"] == t["chain"] and \
                 prev[2] == atoms[0].get("_seg", None) and rng.random() < prob:
-            nxt = {"": "A", "A": "B", "B": "C", "C": "D", "D": "E"}.get(prev[0]["icode"], "Z")
+            letters = "ABCDEFGHIJKLMNOPQRSTUVWXY"
+            pc = prev[0]["icode"]
+            nxt = "A" if pc == "" else letters[letters.index(pc) + 1] if pc in letters[:-1] else None
+            if nxt is None:
+                prev = (t, atoms, atoms[0].get("_seg", None))
+                continue
             for a in atoms:
                 a["resi"], a["icode"] = prev[0]["resi"], nxt
             t["resi"], t["icode"] = prev[0]["resi"], nxt
